@@ -250,8 +250,24 @@ pub fn slot_edits(src: &str) -> Vec<(String, String, usize, usize)> {
                     // continuation token also a line break, and a comment (holding a quote) with a line break
                     let (stoks, serr) = lex_raw(stext);
                     if serr.is_none() {
+                        // all line breaks that end a statement inside the slot written as `;` at once
+                        let ends: Vec<&Token> = stoks.iter().filter(|t| t.tok == Tok::End && &stext[t.start..t.end] == "\n").collect();
+                        if ends.len() > 1 {
+                            let mut v = src.to_string();
+                            for t in ends.iter().rev() {
+                                v.replace_range(open + t.start..open + t.end, ";");
+                            }
+                            out.push((v, format!("every statement-ending line break inside slot {} of string token {} written as `;`", si, i), open, 0));
+                        }
                         for (ti, st) in stoks.iter().enumerate() {
                             if st.tok == Tok::End {
+                                // a terminator inside the slot written the other way
+                                let text = &stext[st.start..st.end];
+                                if text == "\n" {
+                                    out.push((splice(src, open + st.start, 1, ";"), format!("newline {} inside slot {} of string token {} written as `;`", ti, si, i), open + st.start, 0));
+                                } else if text == ";" {
+                                    out.push((splice(src, open + st.start, 1, "\n"), format!("`;` {} inside slot {} of string token {} written as a newline", ti, si, i), open + st.start, 0));
+                                }
                                 continue;
                             }
                             out.push((splice(src, open + st.end, 0, " "), format!("space after token {} inside slot {} of string token {}", ti, si, i), open + st.end, 1));
@@ -300,6 +316,8 @@ pub fn generated_corpus() -> Vec<(String, String)> {
         "print(1 - 9223372036854775808)\n",
         "y := 5\nprint(y -9223372036854775808)\n",
         "a := \"A\"\nb := \"B\"\nprint($\"${$\"<${a}>\"} ${$\"<${b}>\"}\")\nprint($\"${a}${b}${a + b}\")\n",
+        "x := \"v\"\nprint($\"<${fn () {\ny := x\nreturn y\n}()}>\")\nprint($\"${[\nx,\nx][1]}|${{\"k\": x,\n\"l\": x}.l}\")\nprint($\"${fn (p) {\nif p == x {\nreturn \"same\"\n}\nreturn \"other\"\n}(x)}\")\n",
+        "a:=1;b:=-2;print(a!=-1);print(a==-b);print(a<-b);print(a>=-2);print(a-b);print(a--2);print([a,b][0]);print(a*-2);print(a!=b&&a<b||a>b)\nxs:=[1,2,3];print(xs[1:]);print(xs[:-b]);o:={\"k\":a};print(o.k+b);print(-2..a)\n",
         "fn w(s) {\nreturn $\"[${s}]\"\n}\nx := \"X\"\nprint($\"${w(x)}${w($\"${x}${x}\")}\")\nprint($\"${undefined_in_slot}\")\n",
     ];
     for (i, e) in extra.iter().enumerate() {
